@@ -57,7 +57,7 @@ extern "C" void harness_lexer(void) {
       if (c == '$') {
         p++; if (p == e) break;
         bool nl = *p == '\n' || *p == '\r';
-        if (*p == '\r' && p + 1 < e && p[1] == '\n') p++;      // CRLF counts as one newline
+        if (nl && p + 1 < e && p[1] == ('\n' + '\r' - *p)) p++;      // CRLF and LFCR each count as one newline (Lexer::getNextChar)
         p++;
         if (nl) while (p < e && blank((unsigned char)*p)) p++;
         continue;
